@@ -272,5 +272,42 @@ def run(F, R, tier):
         ok = bool(loops) and "self.peek_infix()" in txt and "self.next_token()" in txt and re.search(
             r"left_expr = infix\(self, left_expr\)", txt) is not None
         R.ob("pratt-loop", "infix applied to accumulated left operand", ok, txt[:200], F.loc(f))
+        # the operator loop is left only when peek_valid_expression(precedence) says so (or there is no infix parser for
+        # the next token): any other way out of the loop stops absorbing operators on some *syntactic* condition, so a
+        # minimally parenthesised text groups differently from the fully parenthesised one
+        bad_exits = []
+        for lp in loops:
+            def scan(n, conds):
+                if isinstance(n, list):
+                    for x in n:
+                        scan(x, conds)
+                    return
+                if not isinstance(n, dict):
+                    return
+                k = n.get("k")
+                if k == "closure":
+                    return
+                if k in ("break", "ret"):
+                    txts = [H.render(c) for c in conds]
+                    if not txts or not all(("peek_valid_expression" in t or "peek_infix" in t) for t in txts):
+                        bad_exits.append("%s under %s" % (k, [t[:60] for t in txts if "peek_valid_expression" not in t and "peek_infix" not in t] or "no condition"))
+                    return
+                if k == "if":
+                    scan(n["c"], conds)
+                    scan(n["t"], conds + [n["c"]])
+                    if n.get("e") is not None:
+                        scan(n["e"], conds + [n["c"]])
+                    return
+                if k == "match" and not H.is_try(n):
+                    scan(n["scrut"], conds)
+                    for a in n["arms"]:
+                        scan(a["body"], conds + [n["scrut"]] + ([a["guard"]] if a.get("guard") is not None else []))
+                    return
+                for v in n.values():
+                    if isinstance(v, (dict, list)):
+                        scan(v, conds)
+            scan(lp.get("body"), [])
+        R.ob("pratt-loop", "the operator loop has no exit other than peek_valid_expression / a missing infix parser", bool(loops) and not bad_exits,
+             str(bad_exits[:4]), F.loc(f))
         pre = [x for x in H.walk(b) if x.get("k") == "let" and "curr_prefix" in H.render(x.get("init"))]
         R.ob("pratt-loop", "prefix parser from curr_prefix", bool(pre), "", F.loc(f))
